@@ -795,7 +795,8 @@ func collectionOf(vm *VM, agg func([]Term, *Env) Term, template, goal, instances
 }
 
 func variant(t1, t2 Term, env *Env) bool {
-	s := map[Variable]Variable{}
+	s := map[Variable]Variable{} // the variables of t1 to those of t2
+	r := map[Variable]Variable{} // and back: the correspondence has to be one-to-one
 	rest := [][2]Term{
 		{t1, t2},
 	}
@@ -807,12 +808,13 @@ func variant(t1, t2 Term, env *Env) bool {
 		case Variable:
 			switch y := y.(type) {
 			case Variable:
-				if z, ok := s[x]; ok {
-					if z != y {
-						return false
-					}
-				} else {
-					s[x] = y
+				z, ok := s[x]
+				w, ko := r[y]
+				switch {
+				case ok != ko, ok && (z != y || w != x):
+					return false
+				case !ok:
+					s[x], r[y] = y, x
 				}
 			default:
 				return false
